@@ -540,6 +540,12 @@ def binop(I, node, op, l, r):
         out.frame = None
         if n == 2:
             out.tags["squared"] = l
+        if r.tag("dim") and not r.known and l.tag("kind") != "int":
+            out.tags["pow_by_extent"] = r.tag("dim")      # x ** (number of columns): a length scale raised to an array extent
+    if isinstance(op, (ast.Mult, ast.Div)):
+        for x_ in (l, r):
+            if x_.tag("pow_by_extent"):
+                out.tags["pow_by_extent"] = x_.tag("pow_by_extent")
     if isinstance(op, ast.Add) and (l.tag("floating") or r.tag("floating")):
         out.tags["floating"] = True
         if (r.known and r.const == 0.5) or (l.known and l.const == 0.5):
@@ -741,6 +747,14 @@ def subscript(I, e, b):
     if b.items is not None and ci is not None:
         if -len(b.items) <= ci < len(b.items):
             return b.items[ci]
+    if b.items is not None and idx.tag("kind") == "slice" and b.tag("kind") in ("tuple", "list"):
+        parts = idx.tag("parts") or [None, None, None]
+        cs = [None if p_ is None else const_int(p_) for p_ in parts]
+        if all(p_ is None or c_ is not None for p_, c_ in zip(parts, cs)):
+            out = b.copy(term=mk_term("slice", b.term))
+            out.items = list(b.items[slice(*cs)])
+            out.tags.pop("shape_of", None)
+            return out
     if b.tag("shape_of") is not None and ci is not None:
         s = b.tag("shape_of")
         d = None
@@ -791,6 +805,8 @@ def subscript(I, e, b):
         out.data = out.data | {f"pick@{I.fr.fn.module.relpath}:{e.lineno}"}
         out.tags.pop("point", None)
         I.emit("positional_pick", e, base=b, index=ci)
+    if (idx.tag("cmp") is not None or idx.tag("row_mask") is not None or idx.tag("allany") is not None) and b.tag("kind") == "ndarray":
+        I.emit("row_filter", e, base=b, idx=idx)
     if idx.tag("drawn_indices") or b.tag("rows_drawn"):
         out.tags["rows_drawn"] = True            # rows selected / permuted by a random draw
     if b.tag("sum_dim") is not None and ci is not None:
